@@ -101,6 +101,26 @@ fn main() {
         "inv" => { let v = unhex(&args[2]); match bounded::inv_replay(&v) { Some(d) => { println!("DISAGREE {}", d); std::process::exit(1); } None => println!("AGREE") } }
         "mut" => { let v = unhex(&args[2]); match bounded::mut_replay(&v) { Some(d) => { println!("DISAGREE {}", d); std::process::exit(1); } None => println!("AGREE") } }
         "fromparts" => { let v = unhex(&args[2]); match bounded::fromparts_replay(&v) { Some(d) => { println!("DISAGREE {}", d); std::process::exit(1); } None => println!("AGREE") } }
+        "lsr" => {
+            // real maximize / minimize / character_direction on raw integer forms ("-" = absent); prints raw results
+            let p64 = |s: &str| if s == "-" { None } else { s.parse::<u64>().ok() };
+            let l = p64(&args[2]); let sc = p64(&args[3]).map(|x| x as u32); let r = p64(&args[4]).map(|x| x as u32);
+            let mk = |l: Option<u64>, sc: Option<u32>, r: Option<u32>| LanguageIdentifier::from_raw_parts_unchecked(
+                l.map_or(Language::default(), |v| unsafe { Language::from_raw_unchecked(v) }),
+                sc.map(|v| unsafe { Script::from_raw_unchecked(v) }), r.map(|v| unsafe { Region::from_raw_unchecked(v) }), None);
+            let raw = |li: &LanguageIdentifier| -> String {
+                let a: Option<u64> = li.language.into(); let b: Option<u32> = li.script.map(|x| x.into()); let c: Option<u32> = li.region.map(|x| x.into());
+                format!("{},{},{}", a.map_or("-".to_string(), |x| x.to_string()), b.map_or("-".to_string(), |x| x.to_string()), c.map_or("-".to_string(), |x| x.to_string()))
+            };
+            let x = mk(l, sc, r);
+            let mut mx = x.clone(); let cmx = mx.maximize();
+            let mut mn = x.clone(); let cmn = mn.minimize();
+            let mut mxmx = mx.clone(); let cmxmx = mxmx.maximize();
+            let mut mnmn = mn.clone(); let cmnmn = mnmn.minimize();
+            let mut mnmx = mx.clone(); let cmnmx = mnmx.minimize();
+            let mut mxmn = mn.clone(); let _ = mxmn.maximize();
+            println!("x={} max={}:{} min={}:{} maxmax={}:{} minmin={}:{} minmax={}:{} maxmin={} dir={:?}", raw(&x), cmx, raw(&mx), cmn, raw(&mn), cmxmx, raw(&mxmx), cmnmn, raw(&mnmn), cmnmx, raw(&mnmx), raw(&mxmn), x.character_direction());
+        }
         "search" => {
             let what = args[2].as_str();
             let seed: u64 = args.get(3).and_then(|s| s.parse().ok()).unwrap_or(0);
